@@ -1,2 +1,124 @@
-(* placeholder *)
-From GT Require Import Base.Prelude Model.Simulate.
+(* C15 — simulation routines and their witnesses.
+   "The simulation returns a run that starts in the initial configuration with the whole word unread, changes
+   configuration only by transitions of the automaton while the unread input shrinks from the front, and ends in an
+   accepting state with nothing unread; for rejected words the NFA simulation returns nothing; derivations start with
+   the start variable, rewrite the leftmost (rightmost) variable by a rule at each step and end with the word."
+
+   Part 1: the witness checkers (dfa_run_ok, nfa_run_ok, pda_run_ok, derivation_ok), which the correspondence harness
+           runs on the values returned by dfa/nfa/pda_simulate_word and cfg_derive_word, are sound against the
+           textbook specifications (dfa_path, nfa_lang/nfa_path, pda_lang/pda_reach, cfg_lang/derives); the step
+           relations they check are stated exactly.
+   Part 2: the model of dfa_simulate_word returns a run accepted by the checker (valid DFA, word over the alphabet).
+   Part 3: the model of nfa_simulate_word with nfa_find_epsilon_path (BFS with back-pointers) and nfa_find_transition,
+           for every admissible pick (set.pop() / set iteration order): the epsilon-path search is sound and complete
+           (and terminates within the fuel of the model), accepted words yield a run accepted by the checker,
+           rejected words yield None.
+   States are instantiated to nat (the harness codes state names injectively); the proofs are generic. *)
+From GT Require Import Base.Prelude Model.DFA Model.NFA Model.PDA Model.CFG Model.Simulate Proofs.SimulateProofs.
+
+(* ---------------- Part 1: witness checkers ---------------- *)
+Theorem C15_dfa_run_ok_sound : forall (D : dfa nat) (w : word) (run : list (nat * word)),
+  dfa_run_ok D w run = true ->
+  (exists qf, dfa_path D (dq0 D) w qf /\ last (map fst run) (dq0 D) = qf) /\
+  length run = S (length w) /\
+  (forall i, i <= length w -> snd (nth i run (dq0 D, [])) = skipn i w).
+Proof. exact (fun D w run => dfa_run_ok_sound D w run). Qed.
+
+Theorem C15_nfa_run_ok_sound : forall (N : nfa nat) (w : word) (run : list (nat * word)),
+  nfa_run_ok N w run = true ->
+  nfa_lang N w /\ hd_error run = Some (nq0 N, w) /\ (exists qf, last run (nq0 N, w) = (qf, []) /\ In qf (nF N)).
+Proof. exact (fun N w run => nfa_run_ok_sound N w run). Qed.
+
+Theorem C15_nfa_run_ok_steps : forall (N : nfa nat) (w : word) (run : list (nat * word)),
+  nfa_run_ok N w run = true ->
+  forall i d, S i < length run ->
+    (snd (nth i run d) = snd (nth (S i) run d) /\ In (fst (nth (S i) run d)) (ndelta N (fst (nth i run d)) (neps N))) \/
+    (exists a, snd (nth i run d) = a :: snd (nth (S i) run d) /\ a <> neps N /\
+               In (fst (nth (S i) run d)) (ndelta N (fst (nth i run d)) a)).
+Proof. exact (fun N w run => nfa_run_ok_steps N w run). Qed.
+
+Theorem C15_pda_run_ok_sound : forall (P : pda) (w : word) (run : list (nat * word * list nat)),
+  pda_run_ok P w run = true -> pda_lang P w.
+Proof. exact pda_run_ok_sound. Qed.
+
+Theorem C15_pda_run_ok_shape : forall (P : pda) (w : word) (run : list (nat * word * list nat)),
+  pda_run_ok P w run = true ->
+  hd_error run = Some (pq0 P, w, []) /\
+  exists qf sf, last run (pq0 P, w, []) = (qf, [], sf) /\ In qf (pF P) /\ pda_reach P (pq0 P, []) w (qf, sf).
+Proof. exact pda_run_ok_shape. Qed.
+
+Theorem C15_pda_run_ok_steps : forall (P : pda) (w : word) (run : list (nat * word * list nat)),
+  pda_run_ok P w run = true ->
+  forall i d, S i < length run ->
+    let '(q1, w1, s1) := nth i run d in let '(q2, w2, s2) := nth (S i) run d in
+    (w1 = w2 /\ In (q2, s2) (moves P (peps P) (q1, s1))) \/
+    (exists a, w1 = a :: w2 /\ a <> peps P /\ In (q2, s2) (moves P a (q1, s1))).
+Proof. exact pda_run_ok_steps. Qed.
+
+Theorem C15_derivation_ok_sound : forall (G : cfg) (mode : nat) (w : word) (steps : list (list sym)),
+  derivation_ok G mode w steps = true -> cfg_lang G w.
+Proof. exact derivation_ok_sound. Qed.
+
+Theorem C15_derivation_ok_shape : forall (G : cfg) (mode : nat) (w : word) (steps : list (list sym)),
+  derivation_ok G mode w steps = true ->
+  hd_error steps = Some [Var (gS G)] /\ last steps [] = tword w /\
+  forall i, S i < length steps -> deriv_step_ok G mode (nth i steps []) (nth (S i) steps []) = true.
+Proof. exact derivation_ok_shape. Qed.
+
+(* mode 0: the leftmost variable is rewritten *)
+Theorem C15_deriv_step_leftmost : forall (G : cfg) (x y : list sym),
+  deriv_step_ok G 0 x y = true <->
+  exists pre A post rhs, x = pre ++ Var A :: post /\ y = pre ++ rhs ++ post /\ has_rule G A rhs /\
+                         forallb (fun s => negb (is_var s)) pre = true.
+Proof. exact deriv_step_ok_leftmost. Qed.
+
+(* any other mode (the harness uses 1): the rightmost variable is rewritten *)
+Theorem C15_deriv_step_rightmost : forall (G : cfg) (mode : nat) (x y : list sym), mode <> 0 ->
+  (deriv_step_ok G mode x y = true <->
+   exists pre A post rhs, x = pre ++ Var A :: post /\ y = pre ++ rhs ++ post /\ has_rule G A rhs /\
+                          forallb (fun s => negb (is_var s)) post = true).
+Proof. exact deriv_step_ok_rightmost. Qed.
+
+(* ---------------- Part 2: dfa_simulate_word ---------------- *)
+Theorem C15_dfa_simulate_correct : forall (D : dfa nat) (w : word), dfa_wf D -> Forall (fun a => In a (dS D)) w ->
+  exists run, dfa_simulate D w = Some run /\ dfa_run_ok D w run = true.
+Proof. exact (fun D w => dfa_simulate_correct D w). Qed.
+
+(* ---------------- Part 3: nfa_simulate_word ---------------- *)
+Theorem C15_nfa_find_epsilon_path_correct : forall (pick : picker nat) (N : nfa nat) (R : list nat) (f : nat) (path : list nat),
+  picker_ok pick -> nfa_wf N -> incl R (nQ N) ->
+  nfa_find_epsilon_path pick N R f = Some path ->
+  exists p0, hd_error path = Some p0 /\ In p0 R /\ last path p0 = f /\
+    forall i, S i < length path -> In (nth (S i) path f) (ndelta N (nth i path f) (neps N)).
+Proof. exact (fun pick N R f path Hp => nfa_find_epsilon_path_correct pick Hp N R f path). Qed.
+
+Theorem C15_nfa_find_epsilon_path_complete : forall (pick : picker nat) (N : nfa nat) (R : list nat) (f : nat),
+  picker_ok pick -> nfa_wf N -> incl R (nQ N) ->
+  (exists r, In r R /\ eps_star N r f) -> nfa_find_epsilon_path pick N R f <> None.
+Proof. exact (fun pick N R f Hp => nfa_find_epsilon_path_complete pick Hp N R f). Qed.
+
+Theorem C15_nfa_simulate_sound : forall (pick : picker nat) (N : nfa nat) (w : word),
+  picker_ok pick -> nfa_wf N -> Forall (fun a => In a (nS N)) w -> nfa_accepts N w = Some true ->
+  exists run, nfa_simulate pick N w = Some run /\ nfa_run_ok N w run = true.
+Proof. exact (fun pick N w Hp Hwf => nfa_simulate_sound pick Hp N Hwf w). Qed.
+
+Theorem C15_nfa_simulate_none : forall (pick : picker nat) (N : nfa nat) (w : word),
+  picker_ok pick -> nfa_wf N -> Forall (fun a => In a (nS N)) w -> nfa_accepts N w = Some false ->
+  nfa_simulate pick N w = None.
+Proof. exact (fun pick N w Hp Hwf => nfa_simulate_none pick Hp N Hwf w). Qed.
+
+Print Assumptions C15_dfa_run_ok_sound.
+Print Assumptions C15_nfa_run_ok_sound.
+Print Assumptions C15_nfa_run_ok_steps.
+Print Assumptions C15_pda_run_ok_sound.
+Print Assumptions C15_pda_run_ok_shape.
+Print Assumptions C15_pda_run_ok_steps.
+Print Assumptions C15_derivation_ok_sound.
+Print Assumptions C15_derivation_ok_shape.
+Print Assumptions C15_deriv_step_leftmost.
+Print Assumptions C15_deriv_step_rightmost.
+Print Assumptions C15_dfa_simulate_correct.
+Print Assumptions C15_nfa_find_epsilon_path_correct.
+Print Assumptions C15_nfa_find_epsilon_path_complete.
+Print Assumptions C15_nfa_simulate_sound.
+Print Assumptions C15_nfa_simulate_none.
